@@ -281,6 +281,14 @@ def int_binop(ctx, op, a, b):
                         r = r + (1 - bit) * k
                 k <<= 1
             return wrap_int(r)
+        # a | b with disjoint bit ranges (a multiple of 2^k, 0 <= b < 2^k): plain addition
+        for x, y in ((ta, tb), (tb, ta)):
+            for k in (5, 8, 4, 3, 2, 1, 6, 7, 10, 13, 16, 32):
+                m = z3.IntVal(2 ** k)
+                if ctx.check(z3.Not(z3.And(y >= 0, y < m))) == z3.unsat:
+                    if ctx.check(x % m != 0) == z3.unsat:
+                        return wrap_int(x + y)
+                    break
         return bv_binop(ctx, op, a, b)
     if op == 'BitXor':
         return bv_binop(ctx, op, a, b)
@@ -290,7 +298,64 @@ def int_binop(ctx, op, a, b):
 BV_WIDTH = 72
 
 
+def interval(ctx, t, depth=0):
+    """syntactic interval [lo, hi] of an integer term from recorded variable bounds, or None"""
+    if depth > 400:
+        return None
+    t = t if not isinstance(t, int) else z3.IntVal(t)
+    if z3.is_int_value(t):
+        n = t.as_long()
+        return n, n
+    if not z3.is_app(t):
+        return None
+    k = t.decl().kind()
+    if k == z3.Z3_OP_UNINTERPRETED and t.num_args() == 0:
+        return ctx.var_bounds.get(t.decl().name())
+    if k == z3.Z3_OP_BV2INT:
+        return 0, 2 ** t.arg(0).size() - 1
+    ch = [interval(ctx, c, depth + 1) for c in t.children()] if k in (z3.Z3_OP_ADD, z3.Z3_OP_MUL, z3.Z3_OP_SUB, z3.Z3_OP_IDIV, z3.Z3_OP_MOD, z3.Z3_OP_UMINUS) else None
+    if ch is not None and any(c is None for c in ch):
+        return None
+    if k == z3.Z3_OP_ADD:
+        return sum(c[0] for c in ch), sum(c[1] for c in ch)
+    if k == z3.Z3_OP_SUB:
+        return ch[0][0] - sum(c[1] for c in ch[1:]), ch[0][1] - sum(c[0] for c in ch[1:])
+    if k == z3.Z3_OP_UMINUS:
+        return -ch[0][1], -ch[0][0]
+    if k == z3.Z3_OP_MUL:
+        lo, hi = ch[0]
+        for c in ch[1:]:
+            cands = [lo * c[0], lo * c[1], hi * c[0], hi * c[1]]
+            lo, hi = min(cands), max(cands)
+        return lo, hi
+    if k in (z3.Z3_OP_IDIV, z3.Z3_OP_MOD):
+        a, d = ch
+        if d[0] != d[1] or d[0] <= 0 or a[0] < 0:
+            return None
+        if k == z3.Z3_OP_IDIV:
+            return a[0] // d[0], a[1] // d[0]
+        return 0, min(a[1], d[0] - 1)
+    if k == z3.Z3_OP_ITE:
+        a, b = interval(ctx, t.arg(1), depth + 1), interval(ctx, t.arg(2), depth + 1)
+        if a is None or b is None:
+            return None
+        return min(a[0], b[0]), max(a[1], b[1])
+    return None
+
+
 def _nonneg_bound(ctx, t):
+    iv = interval(ctx, t)
+    if iv is not None:
+        if iv[0] < 0:
+            return None
+        for k in (8, 16, 32, 40, 64, 72, 128, 256, 264, 520):
+            if iv[1] < 2 ** k:
+                return k
+        return None
+    return _nonneg_bound_solver(ctx, t)
+
+
+def _nonneg_bound_solver(ctx, t):
     """Smallest power-of-two exponent k <= 520 with 0 <= t < 2^k provable on this path, else None."""
     for k in (8, 16, 32, 40, 64, 72, 128, 256, 264, 520):
         if ctx.check(z3.Not(z3.And(t >= 0, t < z3.IntVal(2 ** k)))) == z3.unsat:
